@@ -54,11 +54,13 @@
 (* WritesInArrivalOrder / LastWriteIsLastLine state property C20 with no   *)
 (* reference to locks or channels.                                         *)
 (*                                                                         *)
-(* DEVIATION  DEV_OldVmNotAwaited : CompileAndRun closes the old VM's      *)
-(* channel and installs + starts the new VM without waiting for the old    *)
-(* VM to finish the line it is executing; UnloadProgram likewise closes    *)
-(* the channel and returns, so that a later load of the same program can   *)
-(* start while the unloaded VM is still inside a line.                     *)
+(* DEVIATIONS                                                              *)
+(* DEV_OldVmNotAwaited : CompileAndRun closes the old VM's channel and     *)
+(*   installs + starts the new VM without waiting for the old VM to finish *)
+(*   the line it is executing.                                             *)
+(* DEV_UnloadedVmNotAwaited : UnloadProgram likewise closes the channel    *)
+(*   and returns, so that a later load of the same program can start while *)
+(*   the unloaded VM is still inside a line.                               *)
 (***************************************************************************)
 EXTENDS Integers, Sequences, FiniteSets, Json, TLC
 
@@ -69,7 +71,8 @@ CONSTANTS NLines,               \* lines offered to the runtime: 1..NLines, in t
           MaxVer,               \* versions per program
           MaxLoads,             \* bound on the total number of loads started
           Unloadable,           \* programs that may be unloaded
-          DEV_OldVmNotAwaited,  \* the code as it is: swap without waiting for the old VM
+          DEV_OldVmNotAwaited,  \* the code as it is: CompileAndRun swaps without waiting for the old VM
+          DEV_UnloadedVmNotAwaited, \* the code as it is: UnloadProgram returns without waiting for the VM
           EofAnyTime,           \* TRUE (traces): the input may be closed after any line
           KeepHistory,          \* FALSE (traces): h keeps only the last action
           EmitCases             \* "none" | "terminal": print every finished behaviour as a CASE
@@ -187,7 +190,7 @@ AcquireEvs ==
 \* [corrected design: wait until the VM has left its Run loop;] delete; ProgUnloads.Add  -> rt.unload
 AcquireU ==
   LET p == rl.p  o == handle[rl.p] IN
-  IF DEV_OldVmNotAwaited \/ ~Busy(p, o)
+  IF DEV_UnloadedVmNotAwaited \/ ~Busy(p, o)
   THEN /\ vm' = CloseOf(vm, p)
        /\ handle' = [handle EXCEPT ![p] = 0]
        /\ rl' = [rl EXCEPT !.pc = "atunload"]
@@ -196,7 +199,7 @@ AcquireU ==
        /\ UNCHANGED handle
 AcquireUEvs ==
   LET p == rl.p  o == handle[rl.p] IN
-  IF DEV_OldVmNotAwaited \/ ~Busy(p, o) THEN ExitEvs(p) \o <<Ev("unload", p, 0, 0)>> ELSE NoEvs
+  IF DEV_UnloadedVmNotAwaited \/ ~Busy(p, o) THEN ExitEvs(p) \o <<Ev("unload", p, 0, 0)>> ELSE NoEvs
 
 \* loop over handles finished: handleMu.RUnlock(); a pending Lock() is granted
 FanRelease ==
@@ -331,7 +334,7 @@ Unload(p) ==
           /\ UNCHANGED <<vm, handle>>
      ELSE LET u == [pc |-> "wantu", p |-> p, ver |-> 0]
               o == handle[p]
-              now == DEV_OldVmNotAwaited \/ ~Busy(p, o) IN
+              now == DEV_UnloadedVmNotAwaited \/ ~Busy(p, o) IN
           /\ vm' = CloseOf(vm, p)
           /\ handle' = IF now THEN [handle EXCEPT ![p] = 0] ELSE handle
           /\ rl' = [u EXCEPT !.pc = IF now THEN "atunload" ELSE "awaitingu"]
@@ -396,7 +399,7 @@ Emit == ((EmitCases = "terminal" /\ Terminal) \/ (EmitCases = "prefix" /\ h # <<
                                    terminal |-> Terminal,
                                    procd |-> procd,
                                    writes |-> writes,
-                                   dev |-> DEV_OldVmNotAwaited,
+                                   dev |-> <<DEV_OldVmNotAwaited, DEV_UnloadedVmNotAwaited>>,
                                    inorder |-> WritesInArrivalOrder,
                                    lastok |-> LastWriteIsLastLine])>>)
 
